@@ -97,6 +97,24 @@ CHECKS = {
              "every weight value is proved by term identity (the expected outcome) or the miter, and differences are replayed.",
         note="Layer classes that cannot be built or called under the pinned Keras 3 (QConv2DTranspose, recurrent layers) are outside the claim.",
         ref="DESIGN.md section 3 C11"),
+    "C12": dict(
+        level="translation_validation", engine="equiv",
+        technique="model_quantize executed on an enumerated (model, dictionary) family; every converted layer proved equal, for all inputs and weights, to the directly "
+                  "constructed expected layer by graph equivalence (term identity / real relaxation / QF_BVFP miter)",
+        text="Programs (5 model templates x a generated dictionary family x activation_bits x transfer_weights) are enumerated; topology, names, "
+             "classes, shapes, hyper-parameters, untouched layers, transferred weights and the caller's objects are compared concretely; the "
+             "functional statement per converted layer is decided for all inputs and weight values by engine C.",
+        note="The expected layer is built by the harness from the property's wording, not from utils.get_config.  Conversions whose target class "
+             "cannot be constructed under the pinned Keras 3 are outside the claim.",
+        ref="DESIGN.md section 3 C12"),
+    "C13": dict(
+        level="translation_validation", engine="equiv",
+        technique="JSON / clone_model / HDF5 round trips executed concretely; every original/rebuilt layer pair proved equal for all inputs and weights by graph equivalence",
+        text="Generated quantized models (4 templates x seeded quantizer assignments over weight/activation/bias quantizer option pools) go through "
+             "the three routes; success, topology, reported quantizers, restored weights and eager predictions are compared concretely and each "
+             "layer pair is traced with shared symbolic input and weights: identical terms prove bit-identical behaviour for every value.",
+        note="Layer classes that cannot be constructed under the pinned Keras 3 are outside the claim; graph-mode predict is not what is compared.",
+        ref="DESIGN.md section 3 C13"),
 }
 
 NOT_YET = "check not built yet in this revision (see DESIGN.md section 7 build order)"
